@@ -1,25 +1,25 @@
 SPECIFICATION Spec
 CONSTANTS
-  Parties = {"p1", "p2"}
+  Parties = {"p1", "p2", "p3"}
   Creator = "p1"
   MaxCommits = 2
-  MaxProps = 0
-  MaxKps = 1
+  MaxProps = 1
+  MaxKps = 2
   MaxEpoch = 2
   PathRequiredChoices = {FALSE}
   EncChoices = {FALSE}
   ByValueMax = 1
   AllowConflicts = FALSE
-  Features = {"storage", "apps"}
-  Window = 1
-  Retention = 1
-  BurstSizes = {3}
+  Features = {"observer"}
+  Window = 2
+  Retention = 2
+  BurstSizes = {1, 2}
   PskIds = {}
   PskValues = {"none"}
-  JitterChoices = {99999}
+  JitterChoices = {1}
   Deviations = {"F12", "F14"}
-  MaxApps = 1
-  Depth = 22
+  MaxApps = 0
+  Depth = 1000
   BootSize = 0
   WProgress = 60
   WPropose = 30
@@ -29,6 +29,7 @@ CONSTANTS
 VIEW view
 INVARIANT TypeOK
 INVARIANT Agreement
+INVARIANT ObserverTracks
 INVARIANT EpochIsChainLength
 INVARIANT TreesValid
 INVARIANT PrivMatchesPub
@@ -40,5 +41,4 @@ INVARIANT RetentionExact
 INVARIANT NoGenerationReuse
 INVARIANT AtMostOnce
 PROPERTY StepsByOne
-CONSTRAINT LevelBound
 CHECK_DEADLOCK FALSE
